@@ -231,6 +231,18 @@ class NF:
             return Lin.atom(('param', a[0]))
         if op == 'm' and a and a[0] in ('max', 'min') and len(a) == 2:
             return Lin.atom(('amax' if a[0] == 'max' else 'amin', self.nf(a[1])))
+        if op == 'attr' and len(a) == 2 and a[1] in ('start', 'stop', 'step') and is_t(a[0]) and a[0][1] == 'call' and a[0][2] == 'range' and \
+                not any(is_t(x) and x[1] == 'kw' for x in a[0][4:]) and 1 <= len(a[0][4:]) <= 3:
+            # range(a, b).start = a, .stop = b (range(b): start 0), .step = 1 unless given
+            ra = list(a[0][4:])
+            if a[1] == 'start':
+                return self.nf(ra[0]) if len(ra) >= 2 else Lin.const(0)
+            if a[1] == 'stop':
+                return self.nf(ra[1] if len(ra) >= 2 else ra[0])
+            return self.nf(ra[2]) if len(ra) == 3 else Lin.const(1)
+        if op in ('item', 'index') and len(a) == 2 and is_t(a[0]) and a[0][1] == 'call' and a[0][2] == 'divmod' and len(a[0]) == 6 and is_c(a[1]) and a[1][1] in (0, 1):
+            # q, r = divmod(x, y): q = x // y, r = x % y
+            return self.nf(('t', 'FloorDiv' if a[1][1] == 0 else 'Mod', a[0][4], a[0][5]))
         if op in ('attr', 'index', 'item', 'slice'):
             return Lin.atom((op,) + tuple(self.nf_any(x) for x in a))
         return Lin.atom((op,) + tuple(self.nf_any(x) for x in a))
